@@ -143,9 +143,14 @@ def tmp_worktree(repo: str | Path = ".", ref: str = "HEAD") -> Iterator[Path]:
             check=False,
             env=_git_env(),
         ).returncode
+
         def cleanup() -> None:
-            # Nothing to clean up if the worktree was not created, for example when the reference
-            # is unknown or when a branch with the temporary name already exists (it is not ours).
+            # A branch with the temporary name already exists: it is not ours, and Git refused to create
+            # the worktree because of it (the location is no proof of the contrary: it is the temporary
+            # directory itself for references like `@`, whose normalized name is empty).
+            if branch_existed:
+                return
+            # Nothing to clean up either if the worktree was not created, for example when the reference is unknown.
             if os.path.exists(location):
                 # Force removal: loading can leave untracked files in the worktree (bytecode caches for example).
                 # Force it twice: Git keeps a worktree locked while populating it, and the lock stays
@@ -168,7 +173,7 @@ def tmp_worktree(repo: str | Path = ".", ref: str = "HEAD") -> Iterator[Path]:
                     check=False,
                     env=_git_env(),
                 )
-            elif not branch_existed:
+            else:
                 # Git creates the branch first, and itself removes a worktree it could not populate
                 # (a failing smudge filter for example): the branch is then left behind.
                 subprocess.run(
